@@ -179,4 +179,6 @@ def run(db, chk):
                        construct="fresh-basins(%s)" % name,
                        detail="" if ok else "labels of a previous routing state are used",
                        extra={"unit": uname})
+    chk.absorb(db, "C06", {"C06-F1"}, "C19-L3", "the bottom-up order the labels are propagated along is rebuilt "
+               "whenever receivers change (shared with C06-F1)", min_instances=9)
     chk.count_scenarios(n_sc, True)
